@@ -1,6 +1,7 @@
 """C04 - bin-completion uses the minimum possible number of bins."""
 import random
 from runtime import harness as H
+from props import _ded as D
 from runtime import t3_pack as T
 
 REGRESSION = [([30, 30, 30, 30, 40, 40], 100), ([4, 4, 8, 9, 9, 8, 7, 3, 4, 3], 20), ([5, 10, 4, 10, 8, 6, 4, 10, 5, 4, 4, 10], 20)]
@@ -24,4 +25,5 @@ def t3(rep, tier, seed):
 def run(rep, tier, seed):
     rep.level = "exploration"
     rep.assume("A1", "A4", "A6", "A8")
+    D.run_static(rep, "C04", ("purity",), only_files=("bin_completion",))
     t3(rep, tier, seed)
